@@ -19,16 +19,18 @@ func (g *vcgen) loadFieldIn(s *State, base string, st types.Type, idx int) strin
 	}
 	name, ft := g.fieldArr(st, idx)
 	term := fmt.Sprintf("(select %s %s)", g.get(s, name), base)
-	if _, modified := s.m[name]; !modified && s.formal == nil {
-		// entry contents of the heap: every reference stored there existed at entry
+	if s.formal == nil {
+		// the heap is closed under the allocation counter of the same state: an object that exists holds only
+		// references to objects that exist
 		switch ft.Underlying().(type) {
 		case *types.Pointer, *types.Map, *types.Chan, *types.Interface, *types.Slice, *types.Signature:
-			key := "wf:" + term
+			g.stateVar("G.alloc", "Int")
+			alloc := g.get(s, "G.alloc")
+			key := "wf:" + term + "@" + alloc
 			if !g.declared[key] {
 				g.declared[key] = true
-				// only for objects that existed at entry: locations of objects allocated later are unconstrained
-				if f := g.typeFacts(term, ft, g.base("G.alloc")); f != "true" {
-					g.emit(fmt.Sprintf("(assert (=> (<= %s %s) %s))", base, g.base("G.alloc"), f))
+				if f := g.typeFacts(term, ft, alloc); f != "true" {
+					g.emit(fmt.Sprintf("(assert (=> (<= %s %s) %s))", base, alloc, f))
 				}
 			}
 		}
@@ -143,6 +145,21 @@ func (g *vcgen) unbox(t types.Type, ref string) string {
 	g.declareFun(bx, []string{srt}, "Int")
 	g.declareFun(ub, []string{"Int"}, srt)
 	return fmt.Sprintf("(%s %s)", ub, ref)
+}
+
+// unboxIface: the value of non-pointer type t held by interface value v. When v does hold a t, its payload is the
+// box of that value (boxing is a bijection between the values of a representation and their payloads).
+func (g *vcgen) unboxIface(t types.Type, v string) string {
+	ref := fmt.Sprintf("(ival %s)", v)
+	u := g.unbox(t, ref)
+	srt := g.s.sortOf(t)
+	bx := q("box." + strings.Trim(srt, "|"))
+	key := "unboxfact:" + u + fmt.Sprint(g.eng.TagOf(t))
+	if !g.declared[key] {
+		g.declared[key] = true
+		g.emit(fmt.Sprintf("(assert (=> (= (itag %s) %d) (= (%s %s) %s)))", v, g.eng.TagOf(t), bx, u, ref))
+	}
+	return u
 }
 
 func isPointerLike(t types.Type) bool {
@@ -433,6 +450,9 @@ func (g *vcgen) alloc(x *ssa.Alloc) {
 	g.freshObjs[name] = true
 	elem := x.Type().Underlying().(*types.Pointer).Elem()
 	g.zeroInit(name, elem)
+	if cellIsLocal(x) {
+		g.localCells = append(g.localCells, name)
+	}
 	if g.sharedCell[x] {
 		// contents may be changed by a concurrently running closure: every load returns an arbitrary value
 	}
@@ -663,7 +683,7 @@ func (g *vcgen) typeAssert(x *ssa.TypeAssert) {
 		if isPointerLike(at) {
 			valT = fmt.Sprintf("(ite %s (ival %s) 0)", okT, v)
 		} else {
-			valT = g.unbox(at, fmt.Sprintf("(ival %s)", v))
+			valT = g.unboxIface(at, v)
 		}
 	}
 	if x.CommaOk {
@@ -802,4 +822,44 @@ func (g *vcgen) next(x *ssa.Next) {
 	g.assumeType(k, mt.Key())
 	g.set(vn, fmt.Sprintf("(ite %s (store %s %s true) %s)", okc, vis, k, vis))
 	g.tup[x] = []string{okc, k, v}
+}
+
+// cellIsLocal: an Alloc of a non-struct variable that is only loaded, stored or captured by closures which this
+// function itself calls, defers or starts (never passed on or stored as a value)
+func cellIsLocal(a *ssa.Alloc) bool {
+	if _, isS := a.Type().Underlying().(*types.Pointer).Elem().Underlying().(*types.Struct); isS {
+		return false
+	}
+	for _, ref := range *a.Referrers() {
+		switch r := ref.(type) {
+		case *ssa.UnOp, *ssa.DebugRef:
+		case *ssa.Store:
+			if r.Val == a {
+				return false
+			}
+		case *ssa.MakeClosure:
+			for _, use := range *r.Referrers() {
+				switch u := use.(type) {
+				case *ssa.Defer:
+					if u.Call.Value != r {
+						return false
+					}
+				case *ssa.Go:
+					if u.Call.Value != r {
+						return false
+					}
+				case *ssa.Call:
+					if u.Call.Value != r {
+						return false
+					}
+				case *ssa.DebugRef:
+				default:
+					return false
+				}
+			}
+		default:
+			return false
+		}
+	}
+	return true
 }
